@@ -50,7 +50,19 @@ pub fn arb_case(p: TreeParams) -> BoxedStrategy<Case> {
         vec((any::<u16>(), any::<u16>(), arb_string()), 0..4),
         (vec((any::<u16>(), any::<u16>(), any::<u16>()), 0..6), arb_string()),
         (arb_tree(TreeParams::small()), any::<bool>()),
-        (vec(arb_tree(TreeParams::small()), 0..6), vec((arb_key(), arb_tree(TreeParams::small())), 0..6)),
+        (
+            prop_oneof![8 => vec(arb_tree(TreeParams::small()), 0..6), 1 => vec(arb_scalar(false), 30..70)],
+            prop_oneof![
+                8 => vec((arb_key(), arb_tree(TreeParams::small())), 0..6),
+                // many parts with distinct keys in arbitrary order (a sort or a merge has to handle them)
+                1 => (vec(arb_scalar(false), 30..70), any::<u16>()).prop_map(|(v, r)| {
+                    let n = v.len();
+                    let mut out: Vec<(String, M)> = v.into_iter().enumerate().map(|(i, m)| (format!("k{:03}", (i * 37 + r as usize) % 997), m)).collect();
+                    out.rotate_left(r as usize % n.max(1));
+                    out
+                }),
+            ],
+        ),
     )
         .prop_map(|(doc, (m2, indep, muts), psel, (nsel, nmode, nextra), ksel, (steps, pextra), (new_val, update), (parts, op))| {
             let doc2 = match m2 % 3 {
